@@ -1,5 +1,5 @@
 CONSTANTS
-  Shapes = {"plain_and_vec", "map_key", "map_val", "gen_first", "gen_last", "gen_nested_first"}
+  Shapes = {"swift_override", "plain_and_vec", "map_key", "map_val", "gen_first", "gen_last", "gen_nested_first"}
   Roots = {"cwd_dot", "cwd_dot_src", "plain", "under_src"}
   Forms = {"use_via_facade", "use_single", "use_group", "use_nested_self", "use_group_then_fn", "use_group_then_self", "use_group_then_nested_fn", "use_glob", "qualified", "crate_path", "super_path", "self_path", "use_crate", "generic_qualified", "use_alias"}
   Dirs = {"alpha", "beta-two"}
